@@ -36,7 +36,7 @@ PROP_UNITS = {
 
 _NOTE = ('Assumed, not proved: the shim contracts of the cipher/inout/hybrid-array/typenum/core API in /verif/prelude '
          '(listed item by item in evidence.coverage.trusted_base), the parts of the dependency drivers that are not extracted '
-         '(padding, key/IV init, *_blocks_b2b, gen_tail_blocks, SeekNum), the block cipher being a fixed function. Repo functions outside the Verus subset are external_body in Verus and '
+         '(padding, key/IV init, *_blocks_b2b, gen_tail_blocks, integer TryFrom/TryInto), the block cipher being a fixed function. Repo functions outside the Verus subset are external_body in Verus and '
          'checked by Kani with stated bounds (labelled bounded, never counted as proved).')
 
 _T = ('contract-based deductive verification: Verus on the mechanically extracted repo functions (requires/ensures, loop '
@@ -104,8 +104,12 @@ LEVEL = {
                'wseek_state(p) and the reported position is spos_of(state). Lemmas: wseek_state(p) is the state after producing p bytes from '
                'offset 0 (wseek_is_run), the bytes after a seek are bytes p, p+1, ... of that keystream (wseek_keystream), the reported position '
                'after any data call from offset p is p + n (wpos_after_run) -- for every offset, forward or backward, inside a block or not.',
-               'SeekNum (macro-generated impls for i32/u32/u64/u128/usize) is assumed with its arithmetic meaning; an Ok result carries the exact '
-               'value, otherwise an error. remaining() exactness is a C10 obligation too (a data call after a seek must not be refused).'),
+               'SeekNum: the trait and its five macro-generated impls (i32/u32/u64/u128/usize; the macro is expanded mechanically) are verified '
+               'too: a reported position is exact (never truncated), an error only when the position or the start of the next block is not '
+               'representable; a requested offset is cut into p / bs and p % bs.',
+               'Assumed below SeekNum: std integer TryFrom/TryInto (conformance harness shim_int_conversions). <i32 as SeekNum>::into_block_byte '
+               'is external_body (signed % is unspecified in this Verus) with a bounded Kani stand-in (shim_seeknum_i32_into). '
+               'remaining() exactness is a C10 obligation too (a data call after a seek must not be refused).'),
     'C11': _lv('remaining() of all six flavours and of BelT is verified exact (Some(2^w-1-pos) iff representable); every keystream step advances '
                'the position by exactly one mod 2^w. The dependency\'s wrapper is verified: check_remaining is exact, a data call is Ok iff the '
                'request fits what remaining_blocks reports, and on Err data, core state and buffer are untouched; a request ending exactly at '
@@ -192,6 +196,8 @@ def _scan_harnesses():
                                'shim_bytes_u32_u64': 'to/from_{le,be,ne}_bytes of u32 and u64 = digits base 256, full domain (loop-free)',
                                'shim_bytes_u128': 'to/from_{le,be,ne}_bytes of u128 = digits base 256, full domain',
                                'shim_core_helpers': 'split_last_mut, mem::replace, usize::div_ceil, checked_sub, wrapping_add/sub, usize::try_from(u64)',
+                               'shim_seeknum_i32_into': 'BOUNDED stand-in for <i32 as SeekNum>::into_block_byte (external_body in Verus: signed % unspecified there): every i32 position, counter types u32/u64/u128, block sizes 1,2,4,..,128; quotient/remainder characterised by p = b*bs + y, 0 <= y < bs; Err only for negative positions; no panic',
+                               'shim_int_conversions': 'std TryFrom/TryInto between the counter types (u32 u64 u128) and the SeekNum types, i32::from(u8): Ok iff the value fits, value preserved; full domain, loop-free',
                                'shim_typenum': 'typenum constants used by the units'}.get(n, n)}
             out[n] = info
             continue
